@@ -170,6 +170,31 @@ func corrC08(c *corrCtx) {
 		jfull, jneeded := jd.build()
 		inputs = append(inputs, seedFile{fmt.Sprintf("jpeg-icc-exact-end-%d", psz), "jpeg", jfull[:jneeded], jneeded})
 	}
+	// PNG iCCP payloads that zlib rejects at once, part way through, or that end early — with chunks
+	// and image data behind them (what follows the payload must be found again under every schedule)
+	for k := 0; k < 6; k++ {
+		prof := randProfilePayload(r, 300+r.intn(5000))
+		pd := randPngDesc(r, true, prof)
+		good := pd.iccZ
+		switch k % 6 {
+		case 0:
+			pd.iccZ = r.bytes(40 + r.intn(3000)) // not zlib at all
+		case 1:
+			pd.iccZ = append(append([]byte{}, good[:len(good)/2]...), r.bytes(len(good)/2+50)...) // corrupt part way
+		case 2:
+			pd.iccZ = good[:1+len(good)/3] // truncated stream
+		case 3:
+			pd.iccZ = append(append([]byte{}, good...), r.bytes(200+r.intn(2000))...) // trailing bytes after the stream
+		case 4:
+			pd.iccZ = []byte{0x78} // one byte
+		default:
+			pd.iccZ = append([]byte{0x78, 0x9c}, r.bytes(900)...) // valid zlib header, garbage deflate
+		}
+		pd.post = []pngChunk{randAncillary(r, 300), randAncillary(r, 5000)}
+		pd.body = r.bytes(3000 + r.intn(6000))
+		d, n := pd.build()
+		inputs = append(inputs, seedFile{fmt.Sprintf("png-iccp-badzlib-%d", k%6), "png", d, n})
+	}
 	// ICC carriers ending at every offset around the 4096-byte buffer boundaries
 	al, _ := alignedFiles(r, alignTargets(c.thorough()))
 	inputs = append(inputs, al...)
